@@ -61,6 +61,25 @@ func (w *World) snapshotOracle(prop string) []Violation {
 	return nil
 }
 
+// drainedStoreOracle: when nothing is dirty and the system is idle (persistence has caught up), the store's
+// own snapshot must already show the full reference content - the same condition the reopen oracle uses,
+// evaluated without paying for a close + reopen.
+func (w *World) drainedStoreOracle(prop string) []Violation {
+	if w.store == nil || w.closedStore || w.closedColl || w.coll == nil || moss.VerifCollLocked(w.coll) {
+		return nil
+	}
+	if !(moss.VerifDirtyEmpty(w.coll) && w.quiescent()) {
+		return nil
+	}
+	p, d := w.storePrefix()
+	if d == nil || p == len(w.models)-1 {
+		return nil
+	}
+	class, detail := DiffDumps(w.model().DumpT(w.probes), d, "Store.Snapshot")
+	return []Violation{{Prop: prop, Sig: "idle-but-store-stale:" + class + "|store|any",
+		Msg: fmt.Sprintf("nothing is dirty and merger and persister are idle, yet the store's own snapshot is not the full reference content: %s\n  expected %s\n  observed %s", detail, w.model().DumpT(w.probes), d)}}
+}
+
 // trigger returns the history predicate part of a violation signature.  It is "any" unless
 // the divergence falls into the narrow class of a recorded known finding (see known_findings.json).
 func (w *World) trigger(class string) string {
